@@ -174,20 +174,20 @@ class World16(c02.World):
     def live(self) -> List[int]:
         return sorted(c for c, t in self.transports.items() if not t.closed)
 
-    def prot_request(self, kind: int) -> bytes:
+    def prot_request(self, kind: int, shape: str = "ka") -> bytes:
         ident = f"{self.aid}.{self.iid}"
         if kind == 0:
-            return rc.http_request("GET", "/accessories")
+            return rc.http_request("GET", "/accessories", shape=shape)
         if kind == 1:
-            return rc.http_request("GET", "/characteristics?id=" + ident)
+            return rc.http_request("GET", "/characteristics?id=" + ident, shape=shape)
         if kind == 2:
             body = json.dumps({"characteristics": [{"aid": self.aid, "iid": self.iid, "value": True}]}).encode()
-            return rc.http_request("PUT", "/characteristics", body, JS)
+            return rc.http_request("PUT", "/characteristics", body, JS, shape=shape)
         if kind == 3:
             body = json.dumps({"characteristics": [{"aid": self.aid, "iid": self.iid, "ev": True}]}).encode()
-            return rc.http_request("PUT", "/characteristics", body, JS)
+            return rc.http_request("PUT", "/characteristics", body, JS, shape=shape)
         body = json.dumps({"ttl": 1000, "pid": 7}).encode()
-        return rc.http_request("PUT", "/prepare", body, JS)
+        return rc.http_request("PUT", "/prepare", body, JS, shape=shape)
 
     def chunk(self, c: int, raws: List[bytes]) -> List[Dict[str, Any]]:
         """One data_received with all requests; returns one entry per written response (in order):
@@ -284,7 +284,7 @@ class Runner16(c02.Runner):
         return uuidlib.UUID(IDS[i])
 
     def record(self, mop: Dict[str, Any], start: int, resp_classes: Dict[int, List[Any]], compare_events: bool = True,
-               live_override: Optional[List[int]] = None):
+               live_override: Optional[List[int]] = None, strip_close: Optional[int] = None):
         """Turn the transport log slice of this op into the event list the model speaks."""
         events = []
         idx = {c: 0 for c in resp_classes}
@@ -299,6 +299,11 @@ class Runner16(c02.Runner):
                 events.append({"e": "resp" if kind == "w" else "dropped", "conn": c, "rc": cls})
         if not compare_events:
             events = []
+        self.stripped_close = False
+        if strip_close is not None and events and events[-1] == {"e": "close", "conn": strip_close}:
+            events.pop()  # the close that answers `Connection: close` / HTTP/1.0 (the model sees it as the next step)
+            self.stripped_close = True
+            live_override = sorted(set(self.w.live()) | {strip_close})
         st = self.w.driver.state
         paired = sorted([u.bytes.hex(), hx(k), bool(st.is_admin(u))] for u, k in st.paired_clients.items())
         self.mops.append(mop)
@@ -351,6 +356,10 @@ class Runner16(c02.Runner):
             return []
         owner = r.verified_as
         res = w.chunk(c, raws)
+        # a request that asks for the connection to be closed (Connection: close / HTTP/1.0) is the last one processed
+        last = next((k for k, q in enumerate(reqs) if q.get("shape", "ka") != "ka"), None)
+        if last is not None:
+            reqs, mreqs = reqs[: last + 1], mreqs[: last + 1]
         self.clock += len(reqs)
         classes = []
         for k, req in enumerate(reqs):
@@ -361,7 +370,7 @@ class Runner16(c02.Runner):
             if req["r"] in ("prot", "list") and is_served(cls):
                 if owner is None:
                     self.fail("C16:served-without-session", f"{_rn(req)} served on connection {c} that holds no verified session")
-                elif not self.currently_paired(owner):
+                elif not self.currently_paired(owner) or r.__dict__.get("cut"):
                     if dropped:
                         self.fail(
                             "C16:pipelined-request-served-after-removal",
@@ -382,14 +391,22 @@ class Runner16(c02.Runner):
                 self.acked_removals += 1
                 if dropped:
                     self.fail("C16:ack-lost", f"the acknowledgement of the removal sent on connection {c} was written after its transport had been closed")
-                self._removed_now = gone
+                for rd in w.rconn.values():
+                    if rd.verified_as in gone:
+                        rd.cut = True  # a session that was open when its controller's removal was acknowledged
             if req["r"] == "add" and cls == "ack":
                 self.ref_pair(self.uuid_of(req["id"]), self.pub(req["key"]), req["admin"])
-        self.record({"op": "chunk", "conn": c, "reqs": mreqs}, start, {c: [cl for cl, _ in classes]})
+        # the accessory closes the requester's connection after a close-shaped request, unless the tear-down did already
+        own_cut = owner is not None and (not self.currently_paired(owner) or r.__dict__.get("cut"))
+        self.record({"op": "chunk", "conn": c, "reqs": mreqs}, start, {c: [cl for cl, _ in classes]},
+                    strip_close=c if (last is not None and not own_cut) else None)
+        if self.stripped_close:
+            self.clock += 1
+            self.record({"op": "peerclose", "conn": c}, len(w.log), {}, compare_events=False)
         # ---- oracle: after the chunk that acknowledged a removal, the removed controllers' transports are closed
         if any(req["r"] == "remove" and cls == "ack" for req, (cls, _) in zip(reqs, classes)):
             for d, rd in w.rconn.items():
-                if rd.verified_as is not None and not self.currently_paired(rd.verified_as) and not w.transports[d].closed:
+                if rd.verified_as is not None and (not self.currently_paired(rd.verified_as) or rd.__dict__.get("cut")) and not w.transports[d].closed:
                     self.fail(
                         "C16:session-left-open-after-removal",
                         f"connection {d}, a verified session of controller {_ix(rd.verified_as)}, is still open after the removal of "
@@ -520,16 +537,17 @@ class Runner16(c02.Runner):
             return  # a controller does not pipeline behind its own unfinished request here
         raws, mreqs = [], []
         for req in op["reqs"]:
+            shape = req.get("shape", "ka")
             if req["r"] == "prot":
-                raws.append(self.w.prot_request(req["kind"]))
+                raws.append(self.w.prot_request(req["kind"], shape))
                 mreqs.append({"r": "prot", "kind": req["kind"]})
             elif req["r"] == "list":
-                raws.append(rc.http_request("POST", "/pairings", tlv8.encode([(rc.T_METHOD, b"\x05")]), CT))
+                raws.append(rc.http_request("POST", "/pairings", tlv8.encode([(rc.T_METHOD, b"\x05")]), CT, shape=shape))
                 mreqs.append({"r": "list"})
             elif req["r"] == "remove":
                 ident = c02.spell(req["id"], req.get("sp", "upper"))
                 body = tlv8.encode([(rc.T_METHOD, b"\x04"), (rc.T_ID, ident)])
-                raws.append(rc.http_request("POST", "/pairings", body, CT))
+                raws.append(rc.http_request("POST", "/pairings", body, CT, shape=shape))
                 self.row("uuid", [hx(ident), self.uuid_of(req["id"]).bytes.hex()])
                 mreqs.append({"r": "remove", "uname": hx(ident)})
             elif req["r"] == "add":
@@ -538,7 +556,7 @@ class Runner16(c02.Runner):
                 self.note_key(key)
                 body = tlv8.encode([(rc.T_METHOD, b"\x03"), (rc.T_ID, ident), (rc.T_PUBKEY, key),
                                     (rc.T_PERMS, b"\x01" if req["admin"] else b"\x00")])
-                raws.append(rc.http_request("POST", "/pairings", body, CT))
+                raws.append(rc.http_request("POST", "/pairings", body, CT, shape=shape))
                 self.row("uuid", [hx(ident), self.uuid_of(req["id"]).bytes.hex()])
                 mreqs.append({"r": "add", "uname": hx(ident), "key": hx(key), "admin": bool(req["admin"])})
         self.deliver(c, op["reqs"], raws, mreqs)
@@ -656,8 +674,12 @@ def prot(k):
     return {"r": "prot", "kind": k}
 
 
-def rem(i, sp="upper"):
-    return {"r": "remove", "id": i, "sp": sp}
+def rem(i, sp="upper", shape="ka"):
+    return {"r": "remove", "id": i, "sp": sp, "shape": shape}
+
+
+def shaped(req, shape):
+    return {**req, "shape": shape}
 
 
 def add(i, admin=False, key=None):
@@ -759,6 +781,27 @@ def boundary_scripts():
     # abrupt end of the process right after the acknowledgement (no stop at all); an addition in the shutdown window survives too
     s.append([P(0), P(1), P(2, admin=False), CN(0), CN(1), S(0, 0), S(1, 2), RQ(0, rem(2), rem(1)), RESTART, CN(2), S(2, 2), CN(3), S(3, 1), CN(4), S(4, 0), RQ(4, LIST)])
     s.append([P(0), CN(0), S(0, 0), STOP_BEGIN, RQ(0, add(1)), STOP_END, RESTART, CN(1), S(1, 1), RQ(1, prot(0)), CN(2), S(2, 0), RQ(2, rem(1)), RESTART, CN(3), S(3, 1)])
+    # ---- request shape of the removal: Connection: close / HTTP/1.0 on the removal itself or on a request pipelined behind it;
+    # the removed controller holds two sessions, the remover's own connection goes away after the answer
+    for shape in ("close", "http10"):
+        for how in ("verify", "force"):
+            s.append([P(0), P(1, admin=False), CN(0), CN(1), CN(2), S(0, 0, how), S(1, 1), S(2, 1, "force"), RQ(0, rem(1, shape=shape)),
+                      *probes(1), *probes(2), RQ(0, prot(0)), CN(3), S(3, 0), RQ(3, LIST)])
+        s.append([P(0), P(1, admin=False), CN(0), CN(1), CN(2), S(0, 0), S(1, 1), S(2, 1, "force"), RQ(0, rem(1), shaped(prot(0), shape), prot(1)),
+                  *probes(1), *probes(2), RQ(0, prot(0))])
+        s.append([P(0), P(1, admin=False), CN(0), CN(1), CN(2), S(0, 0, "force"), S(1, 1), S(2, 1), RQ(0, rem(1), shaped(LIST, shape)), *probes(2), *probes(1)])
+        # self-removal and last-admin rule with a close-shaped removal
+        s.append([P(0), P(1), CN(0), CN(1), CN(2), S(0, 0), S(1, 0), S(2, 1), RQ(0, rem(0, shape=shape)), *probes(1), *probes(0), RQ(2, prot(0))])
+        s.append([P(0), P(1, admin=False), P(2, admin=False), CN(0), CN(1), CN(2), CN(3), S(0, 0), S(1, 1), S(2, 2, "force"), S(3, 1, "force"),
+                  RQ(0, rem(0, shape=shape)), *probes(1), *probes(2), *probes(3)])
+        # close-shaped requests that remove nothing / are refused leave everybody else alone
+        s.append([P(0), P(1, admin=False), CN(0), CN(1), S(0, 0), S(1, 1), RQ(1, rem(0, shape=shape)), RQ(0, shaped(prot(0), shape)), RQ(1, prot(0)), RQ(0, prot(0))])
+    # [remove X][add X with a new key] in one read: X's old sessions were open when the removal was acknowledged -> cut off;
+    # X may come back on a new connection with the new key only
+    for shape in ("ka", "close"):
+        s.append([P(0), P(1, admin=False), CN(0), CN(1), CN(2), S(0, 0), S(1, 1), S(2, 1, "force"), RQ(0, rem(1), shaped(add(1, key=2), shape)),
+                  *probes(1), *probes(2), CN(3), S(3, 1), CN(4), S(4, 1, key=2), RQ(4, prot(0))])
+    s.append([P(0), P(1), CN(0), CN(1), S(0, 0), S(1, 1), RQ(0, rem(1), add(1, admin=True)), *probes(1), CN(2), S(2, 1), RQ(2, LIST)])
     # removal of one of three, twice in a row (second is a no-op)
     s.append([P(0), P(1, admin=False), P(2, admin=False), CN(0), CN(1), CN(2), S(0, 0), S(1, 1), S(2, 2),
               RQ(0, rem(1), rem(1)), *probes(1), RQ(2, prot(0)), RQ(0, rem(2)), *probes(2), RQ(0, prot(0))])
@@ -820,6 +863,12 @@ def random_script(rng):
         reqs = [rem(target, sp=rng.choice(["upper", "lower"]))]
         if rng.random() < 0.4:
             reqs.append(rng.choice([prot(rng.randrange(5)), LIST]))
+        elif rng.random() < 0.15 and target < n_ctl:
+            reqs.append(add(target, admin=rng.random() < 0.3, key=rng.choice([target, (target + 1) % 4])))
+        if rng.random() < 0.3:
+            # the shape of the request is a dimension of its own: the removal itself or what is pipelined behind it
+            k = rng.randrange(len(reqs))
+            reqs[k] = shaped(reqs[k], rng.choice(["close", "http10"]))
         if rng.random() < 0.15:
             reqs.insert(0, prot(rng.randrange(5)))
         inflight = []
